@@ -84,9 +84,9 @@ func newBackend(name string) *backend {
 	}))
 	return b
 }
-func (b *backend) count() int { b.mu.Lock(); defer b.mu.Unlock(); return b.hits }
+func (b *backend) count() int                    { b.mu.Lock(); defer b.mu.Unlock(); return b.hits }
 func (b *backend) dial(string) (net.Conn, error) { return net.Dial("tcp", b.ln.Addr().String()) }
-func (b *backend) addr() string { return b.ln.Addr().String() }
+func (b *backend) addr() string                  { return b.ln.Addr().String() }
 
 // ---- (a) http vhost ----
 
@@ -263,6 +263,11 @@ func runMux(pauth string, withCreds bool) string {
 
 // ---- (c) client plugins ----
 
+// credentials configured on the plugin under test (set by main; the plugin cases run one at a time)
+var cfgUser, cfgPw = "alice", "pw"
+
+func cfgFull() bool { return cfgUser == "alice" && cfgPw == "pw" }
+
 func servePlugin(p plugin.Plugin) net.Listener {
 	l, _ := net.Listen("tcp", "127.0.0.1:0")
 	go func() {
@@ -280,7 +285,7 @@ func servePlugin(p plugin.Plugin) net.Listener {
 func runHTTPProxyPlugin(method, pauth string) string {
 	be := newBackend("behind-http-proxy")
 	defer be.ln.Close()
-	p, err := plugin.Create(v1.PluginHTTPProxy, plugin.PluginContext{Name: "hp"}, &v1.HTTPProxyPluginOptions{HTTPUser: "alice", HTTPPassword: "pw"})
+	p, err := plugin.Create(v1.PluginHTTPProxy, plugin.PluginContext{Name: "hp"}, &v1.HTTPProxyPluginOptions{HTTPUser: cfgUser, HTTPPassword: cfgPw})
 	if err != nil {
 		return "create: " + err.Error()
 	}
@@ -313,11 +318,11 @@ func runHTTPProxyPlugin(method, pauth string) string {
 			io.Copy(io.Discard, resp.Body)
 		}
 	}
-	ok := presents(pauth, "alice", "pw")
+	ok := presents(pauth, cfgUser, cfgPw)
 	if be.count() > 0 && !ok {
 		return fmt.Sprintf("http_proxy plugin (%s) forwarded a request with Proxy-Authorization=%q", method, credVariants[pauth])
 	}
-	if be.count() == 0 && ok {
+	if be.count() == 0 && ok && cfgFull() {
 		return fmt.Sprintf("http_proxy plugin (%s) refused the right credentials", method)
 	}
 	return ""
@@ -330,7 +335,7 @@ func runHTTPProxySeq(first, method, pauth string) string {
 	be1, be2 := newBackend("first-target"), newBackend("second-target")
 	defer be1.ln.Close()
 	defer be2.ln.Close()
-	p, err := plugin.Create(v1.PluginHTTPProxy, plugin.PluginContext{Name: "hp"}, &v1.HTTPProxyPluginOptions{HTTPUser: "alice", HTTPPassword: "pw"})
+	p, err := plugin.Create(v1.PluginHTTPProxy, plugin.PluginContext{Name: "hp"}, &v1.HTTPProxyPluginOptions{HTTPUser: cfgUser, HTTPPassword: cfgPw})
 	if err != nil {
 		return "create: " + err.Error()
 	}
@@ -372,7 +377,7 @@ func runHTTPProxySeq(first, method, pauth string) string {
 			io.Copy(io.Discard, resp.Body)
 		}
 	}
-	if be2.count() > 0 && !presents(pauth, "alice", "pw") {
+	if be2.count() > 0 && !presents(pauth, cfgUser, cfgPw) {
 		return fmt.Sprintf("http_proxy plugin: after a first (%s) GET on the same connection, a %s with Proxy-Authorization=%q was forwarded", first, method, credVariants[pauth])
 	}
 	if first != "authorised" && be1.count() > 0 {
@@ -384,7 +389,7 @@ func runHTTPProxySeq(first, method, pauth string) string {
 func runSocks5(mode string) string {
 	be := newBackend("behind-socks5")
 	defer be.ln.Close()
-	p, err := plugin.Create(v1.PluginSocks5, plugin.PluginContext{Name: "s5"}, &v1.Socks5PluginOptions{Username: "alice", Password: "pw"})
+	p, err := plugin.Create(v1.PluginSocks5, plugin.PluginContext{Name: "s5"}, &v1.Socks5PluginOptions{Username: cfgUser, Password: cfgPw})
 	if err != nil {
 		return "create: " + err.Error()
 	}
@@ -422,7 +427,7 @@ func runSocks5(mode string) string {
 			connect()
 		}
 	case "right", "wrong-pw", "wrong-user", "empty":
-		u, pw := "alice", "pw"
+		u, pw := cfgUser, cfgPw
 		switch mode {
 		case "wrong-pw":
 			pw = "nope"
@@ -448,7 +453,7 @@ func runSocks5(mode string) string {
 	if be.count() > 0 && mode != "right" {
 		return "socks5 plugin with credentials served a client in mode " + mode
 	}
-	if be.count() == 0 && mode == "right" {
+	if be.count() == 0 && mode == "right" && cfgFull() {
 		return "socks5 plugin refused the right credentials"
 	}
 	return ""
@@ -458,7 +463,7 @@ func runStaticFile(auth string) string {
 	dir, _ := os.MkdirTemp("/verif/.build", "static")
 	defer os.RemoveAll(dir)
 	os.WriteFile(filepath.Join(dir, "secret.txt"), []byte("TOP-SECRET-CONTENT"), 0o644)
-	p, err := plugin.Create(v1.PluginStaticFile, plugin.PluginContext{Name: "sf"}, &v1.StaticFilePluginOptions{LocalPath: dir, HTTPUser: "alice", HTTPPassword: "pw"})
+	p, err := plugin.Create(v1.PluginStaticFile, plugin.PluginContext{Name: "sf"}, &v1.StaticFilePluginOptions{LocalPath: dir, HTTPUser: cfgUser, HTTPPassword: cfgPw})
 	if err != nil {
 		return "create: " + err.Error()
 	}
@@ -482,11 +487,11 @@ func runStaticFile(auth string) string {
 	}
 	body, _ := io.ReadAll(resp.Body)
 	served := strings.Contains(string(body), "TOP-SECRET")
-	ok := presents(auth, "alice", "pw")
+	ok := presents(auth, cfgUser, cfgPw)
 	if served && !ok {
 		return fmt.Sprintf("static_file plugin served the file for Authorization=%q", credVariants[auth])
 	}
-	if !served && ok {
+	if !served && ok && cfgFull() {
 		return "static_file plugin refused the right credentials"
 	}
 	if !served && resp.StatusCode == 401 && resp.Header.Get("WWW-Authenticate") == "" {
@@ -735,7 +740,7 @@ func main() {
 	if c == nil {
 		return
 	}
-	c.Rule("complete product of route tables (all conflict-free subsets of size <= 3 of 6 routes mixing open, password-protected, location-scoped and user-routed routes on one host plus a catch-all) x request forms (origin-form / absolute-form targets, GET / POST / CONNECT, HTTP/1.1 and h2c prior knowledge) x 9 Authorization variants x 9 Proxy-Authorization variants through the real reverse proxy with one marker backend per route; CONNECT credentials at the real tcpmux muxer; http_proxy (GET and CONNECT), socks5 (6 negotiation modes), static_file plugins; every route of the dashboard and of the admin API x 6 credential shapes; non-trivial = distinct (table, request) case")
+	c.Rule("complete product of route tables (all conflict-free subsets of size <= 3 of 6 routes mixing open, password-protected, location-scoped and user-routed routes on one host plus a catch-all) x request forms (origin-form / absolute-form targets, plain and percent-encoded location, GET / POST / CONNECT, HTTP/1.1 and h2c prior knowledge) x 9 Authorization variants x 9 Proxy-Authorization variants through the real reverse proxy with one marker backend per route; CONNECT credentials at the real tcpmux muxer; http_proxy (GET and CONNECT, single requests and two-request keep-alive sequences), socks5 (6 negotiation modes), static_file plugins, each configured with user + password, user only and password only; end-to-end wiring of configured credentials to every public name of http and tcpmux proxies; every route of the dashboard and of the admin API x 6 credential shapes; non-trivial = distinct (table, request) case")
 	c.Assume("real sockets on loopback, one request per fresh front end; 'presents the credentials' = a well-formed Basic header with exactly user:password in Authorization or Proxy-Authorization")
 
 	// (a)
@@ -750,7 +755,7 @@ func main() {
 			}
 		}
 	}
-	targets := []string{"/x", "/adm/x", "http://h.example.com/x", "http://h.example.com/adm/x"}
+	targets := []string{"/x", "/adm/x", "http://h.example.com/x", "http://h.example.com/adm/x", "/%61dm/x", "http://h.example.com/%61dm/x"}
 	type job struct{ vc vcase }
 	jobs := make(chan vcase, 1024)
 	var mu sync.Mutex
@@ -813,33 +818,38 @@ func main() {
 			}
 		}
 	}
-	// (c)
-	for _, pa := range credOrder {
-		for _, m := range []string{"GET", "CONNECT"} {
-			c.Count("httpproxy:" + m + ":" + pa)
-			if e := runHTTPProxyPlugin(m, pa); e != "" {
-				c.Violate("plugin", "httpproxy:"+e, e, map[string]any{"method": m, "pauth": pa})
-			}
-		}
-		for _, first := range []string{"unauthorised", "authorised"} {
+	// (c) plugins configured with user + password, user only, password only
+	for _, cfg := range [][2]string{{"alice", "pw"}, {"alice", ""}, {"", "pw"}} {
+		cfgUser, cfgPw = cfg[0], cfg[1]
+		tag := cfgUser + ":" + cfgPw + ":"
+		for _, pa := range credOrder {
 			for _, m := range []string{"GET", "CONNECT"} {
-				c.Count("httpproxyseq:" + first + ":" + m + ":" + pa)
-				if e := runHTTPProxySeq(first, m, pa); e != "" {
-					c.Violate("plugin", "httpproxyseq:"+e, e, map[string]any{"first": first, "method": m, "pauth": pa})
+				c.Count(tag + "httpproxy:" + m + ":" + pa)
+				if e := runHTTPProxyPlugin(m, pa); e != "" {
+					c.Violate("plugin", "httpproxy:"+tag+e, "configured "+tag+" "+e, map[string]any{"method": m, "pauth": pa, "cfg": cfg})
 				}
 			}
+			for _, first := range []string{"unauthorised", "authorised"} {
+				for _, m := range []string{"GET", "CONNECT"} {
+					c.Count(tag + "httpproxyseq:" + first + ":" + m + ":" + pa)
+					if e := runHTTPProxySeq(first, m, pa); e != "" {
+						c.Violate("plugin", "httpproxyseq:"+tag+e, "configured "+tag+" "+e, map[string]any{"first": first, "method": m, "pauth": pa, "cfg": cfg})
+					}
+				}
+			}
+			c.Count(tag + "static:" + pa)
+			if e := runStaticFile(pa); e != "" {
+				c.Violate("plugin", "static:"+tag+e, "configured "+tag+" "+e, map[string]any{"auth": pa, "cfg": cfg})
+			}
 		}
-		c.Count("static:" + pa)
-		if e := runStaticFile(pa); e != "" {
-			c.Violate("plugin", "static:"+e, e, map[string]any{"auth": pa})
+		for _, mode := range []string{"right", "wrong-pw", "wrong-user", "empty", "noauth-method", "skip-negotiation"} {
+			c.Count(tag + "socks5:" + mode)
+			if e := runSocks5(mode); e != "" {
+				c.Violate("plugin", "socks5:"+tag+e, "configured "+tag+" "+e, map[string]any{"mode": mode, "cfg": cfg})
+			}
 		}
 	}
-	for _, mode := range []string{"right", "wrong-pw", "wrong-user", "empty", "noauth-method", "skip-negotiation"} {
-		c.Count("socks5:" + mode)
-		if e := runSocks5(mode); e != "" {
-			c.Violate("plugin", "socks5:"+e, e, mode)
-		}
-	}
+	cfgUser, cfgPw = "alice", "pw"
 	// (e)
 	drv.E2Replayers["wiring"] = func(raw json.RawMessage) string {
 		var rb string
